@@ -479,7 +479,8 @@ class Body:
                     for (r2, p2) in self.trace(args[0]["place"], through, _seen, depth + 1):
                         out.add((r2, p2 + ("[]",) + tuple(item_path)))
             else:
-                return None
+                # an iterator produced by a function of the crate (e.g. Circuit::wires): keep it as an opaque source
+                out.add((("iter", r[1], callee(t)), tuple(item_path)))
         return out or None
 
     def deep_sources(self, op, depth=3, through=TRANSPARENT):
